@@ -209,6 +209,38 @@ def cmdEik3d : StateT Toks (Except String) String := do
       | none => ""
     pure s!"ok {fbits t.vzero} {outGrid3 t.grid} {g}"
 
+/-- one call of the 2-D `sweep` kernel (node update) on an arbitrary state:
+`sweep2 nz nx i j sgnvz sgnvx sgntz sgntx zsi xsi grad dz dx zsa xsa vzero tt[nz*nx] slow[(nz-1)*(nx-1)]`;
+the sign array starts as the sentinel `(7, 7)` everywhere; answer: `tt'` and the sign pair at `(i, j)` -/
+def cmdSweep2 : StateT Toks (Except String) String := do
+  let nz ← popNat; let nx ← popNat; let i ← popNat; let j ← popNat
+  let svz ← popInt; let svx ← popInt; let stz ← popInt; let stx ← popInt
+  let zsi ← popInt; let xsi ← popInt; let grad ← popNat
+  let dz ← popF; let dx ← popF; let zsa ← popF; let xsa ← popF; let vz ← popF
+  let tt ← popGrid2 nz nx
+  let slow ← popGrid2 (nz - 1) (nx - 1)
+  let dzi := (1.0 : Float) / dz
+  let dxi := (1.0 : Float) / dx
+  let p : Par2 Float := { dz, dx, dzi, dxi, dz2i := dzi / dz, dx2i := dxi / dx, zsi, xsi, zsa, xsa,
+                          vzero := vz, big, nz, nx }
+  let sgn : Grid2 (Int × Int) := if grad != 0 then Grid2.full nz nx (7, 7) else #[]
+  let s := nodeUpdate2 p slow (grad != 0) ⟨tt, sgn⟩ i j ⟨svz, svx, stz, stx⟩
+  let sg := s.sgn.get (7, 7) i j
+  pure s!"ok {outGrid2 s.tt} {sg.1} {sg.2}"
+
+def cmdSweep3 : StateT Toks (Except String) String := do
+  let nz ← popNat; let nx ← popNat; let ny ← popNat; let i ← popNat; let j ← popNat; let k ← popNat
+  let svz ← popInt; let svx ← popInt; let svy ← popInt; let stz ← popInt; let stx ← popInt; let sty ← popInt
+  let grad ← popNat
+  let dz ← popF; let dx ← popF; let dy ← popF
+  let tt ← popGrid3 nz nx ny
+  let slow ← popGrid3 (nz - 1) (nx - 1) (ny - 1)
+  let p := mkPar3 big dz dx dy nz nx ny
+  let sgn : Grid3 (Int × Int × Int) := if grad != 0 then Grid3.full nz nx ny (7, 7, 7) else #[]
+  let s := nodeUpdate3 p slow (grad != 0) ⟨tt, sgn⟩ i j k ⟨svz, svx, svy, stz, stx, sty⟩
+  let sg := s.sgn.get (7, 7, 7) i j k
+  pure s!"ok {outGrid3 s.tt} {sg.1} {sg.2.1} {sg.2.2}"
+
 def handle (line : String) : String :=
   let toks := (line.splitOn " ").filter (· ≠ "")
   match toks with
@@ -232,6 +264,8 @@ def handle (line : String) : String :=
     | "eik2d" => run cmdEik2d
     | "eik3d" => run cmdEik3d
     | "mesh3d" => run cmdMesh3d
+    | "sweep2" => run cmdSweep2
+    | "sweep3" => run cmdSweep3
     | _ => s!"bad command {c}"
 
 partial def loop (h : IO.FS.Stream) (out : IO.FS.Stream) : IO Unit := do
